@@ -101,6 +101,88 @@ start :: fn do
 end
 ''', {"a": (0, 3)})
 
+T("binary_operand_order", "operands-are-evaluated-left-to-right(every binary operator)", '''
+n := 0
+tick :: fn tag: int -> int do
+    print(tag)
+    n += tag + ?a
+    ret n
+end
+bump :: fn -> int do
+    n += 1
+    ret n * 2
+end
+op0 :: fn do
+    print(tick(1) + tick(2))
+    print(n + bump())
+    print(bump() + n)
+end
+op1 :: fn do
+    print(tick(1) - tick(2))
+    print(n - bump())
+    print(bump() - n)
+end
+op2 :: fn do
+    print(tick(1) * tick(2))
+    print(n * bump())
+    print(bump() * n)
+end
+op3 :: fn do
+    print(tick(1) / tick(2))
+    print(n / bump())
+    print(bump() / n)
+end
+op4 :: fn do
+    print(tick(1) < tick(2))
+    print(n < bump())
+    print(bump() < n)
+end
+op5 :: fn do
+    print(tick(1) <= tick(2))
+    print(n <= bump())
+    print(bump() <= n)
+end
+op6 :: fn do
+    print(tick(1) > tick(2))
+    print(n > bump())
+    print(bump() > n)
+end
+op7 :: fn do
+    print(tick(1) >= tick(2))
+    print(n >= bump())
+    print(bump() >= n)
+end
+op8 :: fn do
+    print(tick(1) == tick(2))
+    print(n == bump())
+    print(bump() == n)
+end
+op9 :: fn do
+    print(tick(1) != tick(2))
+    print(n != bump())
+    print(bump() != n)
+end
+tuples :: fn do
+    print((tick(3), 1) + (tick(4), 2))
+    print((tick(5), 1) >= (tick(6), 2))
+    print((tick(7), n) < (bump(), tick(8)))
+    print(tick(1) >= tick(2) and tick(3) <= tick(4))
+end
+start :: fn do
+    op0()
+    op1()
+    op2()
+    op3()
+    op4()
+    op5()
+    op6()
+    op7()
+    op8()
+    op9()
+    tuples()
+end
+''', {"a": (0, 2)})
+
 T("tuple_order", "tuple-lexicographic-order", '''
 start :: fn do
     t := (?a, ?b)
